@@ -838,7 +838,9 @@ class Connection (EventMixin):
       self.ofnexus._disconnect(self.dpid, self)
     except:
       pass
-    if self.dpid is not None:
+    if self.dpid is not None and self.connect_time is not None:
+      # Only connections which were announced (ConnectionUp) get a
+      # ConnectionDown
       if not self.disconnection_raised and not defer_event:
         self.disconnection_raised = True
         self.ofnexus.raiseEventNoErrors(ConnectionDown, self)
